@@ -15,17 +15,17 @@ LEVEL_TEXT = ('for every operation of the fault-free trace and every applicable 
               'faulted trace (pairs); every run must terminate within 20x the fault-free length and end with the argument fully trashed (in any candidate) or untouched, exit status 0 iff '
               'trashed, pre-existing pairs unchanged')
 LEVEL_NOTE = 'faults are injected at Python os-call granularity with errnos from a per-syscall table; triples of faults and errnos outside the table are not covered'
-RULE = ('scenarios: kind {file, tree, symlink} x route {home cold, home warm, .Trash/uid, .Trash-uid, home fallback}; level 1 = all ops x all applicable errnos + sticky faults on mutating '
+RULE = ('scenarios: kind {file, tree, symlink} x route {home cold, home warm, .Trash/uid, .Trash-uid, home fallback, home trash whose info is a regular file}; level 1 = all ops x all applicable errnos + sticky faults on mutating '
         'ops and on stat/lstat; level 2 quick = second fault on mutating ops with {EACCES, ENOSPC, EIO} for 4 scenarios, thorough = all ops x all errnos for 4 scenarios and the quick scope elsewhere; '
         'non-trivial = the fault was delivered and changed the trace; distinct = (route, faulted op(s), errno(s), outcome)')
 LEVEL2_SCOPE = {'quick': 'second fault on mutating operations with errno in {EACCES, ENOSPC, EIO} for 4 scenarios (file/home-cold, file/fallback, tree/.Trash-uid, link/.Trash/uid)',
                 'thorough': 'all operations x all applicable errnos for (file|tree, home-cold|fallback); quick scope for the other scenarios'}
-ROUTES = ['home-cold', 'home-warm', 'top', 'alt', 'fallback']
+ROUTES = ['home-cold', 'home-warm', 'top', 'alt', 'fallback', 'home-info-file']
 KINDS = ['file', 'tree', 'ldir']
 
 
 def dimensions(tier):
-    return {'kinds': 3, 'routes': 5, 'errno_table_size': sum(len(v) for v in faults.ERRNOS.values())}
+    return {'kinds': 3, 'routes': 6, 'errno_table_size': sum(len(v) for v in faults.ERRNOS.values())}
 
 
 def scenarios(tier):
@@ -46,7 +46,7 @@ def level2_filter(tier, scn, op, errno, mut):
 def _layout(s):
     route = s['route']
     B = '/home/u/w' if route.startswith('home') else '/mnt/v1/w'
-    td = {'home-cold': scen.HOME_TRASH, 'home-warm': scen.HOME_TRASH, 'top': '/mnt/v1/.Trash/0', 'alt': '/mnt/v1/.Trash-0', 'fallback': scen.HOME_TRASH}[route]
+    td = {'home-cold': scen.HOME_TRASH, 'home-warm': scen.HOME_TRASH, 'top': '/mnt/v1/.Trash/0', 'alt': '/mnt/v1/.Trash-0', 'fallback': scen.HOME_TRASH, 'home-info-file': scen.HOME_TRASH}[route]
     return B, td
 
 
@@ -59,6 +59,8 @@ def make_world(s):
         W.dir('/mnt/v1/.Trash', mode=0o1777)
     if s['route'] == 'fallback':
         W.file('/mnt/v1/.Trash', 'blocked').file('/mnt/v1/.Trash-0', 'blocked')
+    if s['route'] == 'home-info-file':
+        W.dir(td, mode=0o700).dir(td + '/files', mode=0o700).file(td + '/info', 'not a directory\n')
     if s['route'] == 'home-warm':
         scen.add_trashed(W, td, 'old', B + '/old', '2019-01-01T00:00:00', payload='tree', tag='older')
     return W
